@@ -154,6 +154,21 @@ GSpecLimits == GInit /\ [][GNextLimits]_gvars
 
 GSpec == GInit /\ [][GNext]_gvars
 GSpecTxn == GInit /\ [][GNextTxn]_gvars
+(* long vectors (imbl's Vector changes representation at 64 items; a change to an adapter may be size-dependent): *)
+(* the same walks from long initial contents, with appends of 40 / 70 items                                      *)
+(* every mutator at a few representative indices (walks over long vectors: keeps the branching small) *)
+IdxSome(n) == {0, 1, n \div 2, n - 2, n - 1, n, 63, 64, 65} \cap 0..n
+MutSome(w) ==
+    \/ PushBack(w, fresh) \/ PushFront(w, fresh) \/ PopBack(w) \/ PopFront(w) \/ Clear(w)
+    \/ \E i \in IdxSome(Len(Cur(w))) : \/ Insert(w, i, fresh) \/ Truncate(w, i)
+    \/ \E i \in IdxSome(Len(Cur(w)) - 1) : SetAt(w, i, fresh, "Set") \/ RemoveIdx(w, i, "Remove")
+    \/ \E k \in {0, 1, 40, 70} : AppendK(w, k)
+GNextBig ==
+    \/ (MutSome("v") \/ MutSome("t") \/ TxnBegin \/ TxnCommit \/ TxnDrop \/ TxnRollback \/ DropVector) /\ UNCHANGED <<pipes, lim>>
+    \/ (\E s \in 1..Len(pipes), k \in {0, 1, 2} :
+          Poll(s, k) /\ lim' = [lim EXCEPT ![s] = [i \in DOMAIN lim[s] |-> [lim[s][i] EXCEPT !.seen = TRUE]]]) /\ UNCHANGED pipes
+    \/ LimSide
+GSpecBig == GInit /\ [][GNextBig]_gvars
 
 View == <<core, pipes, lim>>
 Bound == Len(hist) <= Depth
